@@ -483,13 +483,19 @@ structure ParSchedule where
   sched : List Nat
   arrival : List Nat
 
+/-- the goroutines of the parallel reproduction phase: one per species, each with the random numbers it happens to get -/
+def speciesThreads (o : EpochOpts W) (generation : Int) (p1 : Pop W) (ex : ExecState) (streams : List (List Nat)) :
+    List (Prog W (BRes W)) :=
+  p1.species.zipIdx.map (fun (x : Species W × Nat) =>
+    reproduceSpeciesP o generation x.1 (ex.sortedIds.filterMap (fun i => p1.species.find? (·.id == i))) p1.reg p1.nextUid
+      (streams.getD x.2 []))
+
 /-- `ParallelPopulationEpochExecutor.reproduce`: one goroutine per species over the shared registry, `wg.Wait()`, the
     babies decoded in order of arrival, size check, `speciate`.  (`wg.Wait()` + `range` over the closed channel deliver
     every result exactly once: `arrival` must be a permutation of the goroutine indices and every goroutine must have
     finished - schedules that do not satisfy this are not executions and are mapped to an error.) -/
 def parReproducePhase (o : EpochOpts W) (generation : Int) (p : Pop W) (ex : ExecState) (ps : ParSchedule) : Except Stop (Pop W) :=
-  let sorted := ex.sortedIds.filterMap (fun i => p.species.find? (·.id == i))
-  let threads := p.species.zipIdx.map (fun (s, i) => reproduceSpeciesP o generation s sorted p.reg p.nextUid (ps.streams.getD i []))
+  let threads := speciesThreads o generation p ex ps.streams
   let st := runSched ({ reg := p.reg, threads := threads } : PState W (BRes W)) ps.sched
   if ¬ ps.arrival.Perm (List.range threads.length) then .error (.error "par:arrivalNotAPermutation")
   else
